@@ -7,7 +7,7 @@ import jsonpath
 from jsonpath import JSONPathEnvironment
 
 from vlib import oracle, spines
-from vlib.hs import Leaf, P, kf, ok, small, why
+from vlib.hs import Leaf, P, alist, drive, kf, ok, small, why
 
 DEFAULTS = {"R": "$", "S": "@", "K": "#", "C": "_", "Y": "~", "F": "^", "U": "|", "I": "&"}
 TOKENS: Dict[str, str] = dict(DEFAULTS, **P.get("tokens", {}))
@@ -105,6 +105,9 @@ def meaning(l0: LT, l1: LT, l2: int, l3: int, n: int, b0: bool, b1: bool, ck: in
     d = sig(DQ.finditer(doc, filter_context=ctx))
     c = sig(CQ.finditer(doc, filter_context=ctx))
     if not why(_same(c, d), "custom environment evaluates differently", CTEXT, DTEXT, c, d):
+        return ok(False)
+    ca = sig(drive(alist(drive(CQ.finditer_async(doc, filter_context=ctx)))))
+    if not why(_same(ca, d), "custom environment evaluates differently through the async route", CTEXT, ca, d):
         return ok(False)
     if RQ is None:
         return ok(True)
